@@ -159,10 +159,10 @@ class Client:
 
 
 def run(ctx: Ctx, rep: Report) -> None:
-    rep.rule("C14-R1", "every store to state shared between operations is a justified, operation-independent instance", floor=12)
-    rep.rule("C14-R2", "no check-then-act across an await on shared locations", floor=7)
-    rep.rule("C14-R3", "every exchange owns its endpoint, protocol object and future", floor=4)
-    rep.rule("C14-R4", "concurrent first use: whatever flags another task has set, a task reads the discovery cache only after it was filled (shared with C12-R1)", floor=3)
+    rep.rule("C14-R1", "every store to state shared between operations is a justified, operation-independent instance", floor=10)
+    rep.rule("C14-R2", "no check-then-act across an await on shared locations", floor=4)
+    rep.rule("C14-R3", "every exchange owns its endpoint, protocol object and future", floor=2)
+    rep.rule("C14-R4", "concurrent first use: whatever flags another task has set, a task reads the discovery cache only after it was filled (shared with C12-R1)", floor=2)
     rep.assumptions += [
         "asyncio runs one task at a time between awaits (cooperative scheduling)",
         "repeated engine discovery on concurrent first use is permitted by the property; the discovery data of one agent is interchangeable",
@@ -286,13 +286,11 @@ def run(ctx: Ctx, rep: Report) -> None:
     # ------------------------------------------------------------ R3
     from .c13 import default_sender
 
-    sender = default_sender(ctx)
-    proto = None
-    inside_loop_or_fn = False
-    for n in own_nodes(sender.node):
-        if isinstance(n, ast.Call) and isinstance(n.func, ast.Attribute) and n.func.attr == "create_datagram_endpoint" and n.args and isinstance(n.args[0], ast.Lambda) and isinstance(n.args[0].body, ast.Call):
-            proto = ctx.r.resolve_class(sender.module, n.args[0].body.func)
-            inside_loop_or_fn = True
+    from .c13 import endpoint_factory
+
+    sender = ctx.inlined(default_sender(ctx))
+    proto, _, ep_call = endpoint_factory(ctx, sender)
+    inside_loop_or_fn = ep_call is not None  # the factory constructs a new protocol object on every call of the sender
     rep.check(proto is not None and inside_loop_or_fn, "C14-R3", sender.site(), "every call of the UDP sender creates its own endpoint with a freshly constructed protocol object", key=f"{sender.key}|shared-endpoint")
     if proto is not None:
         init = proto.methods.get("__init__")
